@@ -353,9 +353,77 @@ def _product_leaves(node: ast.AST, out: list) -> bool:
     return False
 
 
+LOSSY = {"int", "round", "abs", "bool", "floor", "ceil", "trunc", "len", "hash"}
+INJECTIVE = {"tuple", "sorted", "list", "float", "Rational", "Fraction", "str", "repr", "frozenset", "Decimal"}
+
+
+def check_group_key(ctx: Check, tree: Tree) -> None:
+    """What is summed coherently is decided by the key of group_by_spin_projection: it must
+    separate transitions by the (particle, spin projection) of EVERY outer state.  A key
+    that maps different projections to one value merges groups: amplitudes that belong to
+    different terms of the incoherent sum are added coherently."""
+    fn = tree.func("ampform.helicity.decay::group_by_spin_projection")
+    stores = [n for n in walk_function(fn.node) if isinstance(n, ast.Call) and isinstance(n.func, ast.Attribute) and n.func.attr == "append"
+              and isinstance(n.func.value, ast.Subscript)]
+    if len(stores) != 1:
+        raise AnalysisError("group_by_spin_projection: expected one `groups[key].append(transition)`")
+    key_expr = stores[0].func.value.slice
+    rd = RD(fn.node)
+    # all expressions the key is built from, looking into same-module helpers
+    exprs: list[tuple[ast.AST, FuncInfo]] = [(key_expr, fn)] + [(d.value, fn) for d in rd.closure(rd.uses(key_expr)) if d.value is not None]
+    seen_helpers = set()
+    for e, owner in list(exprs):
+        for c in ast.walk(e):
+            if isinstance(c, ast.Call):
+                callee = tree.callee(c, owner)
+                if callee in tree.funcs and callee.startswith("ampform.helicity") and callee not in seen_helpers:
+                    seen_helpers.add(callee)
+                    h = tree.funcs[callee]
+                    for r in walk_function(h.node):
+                        if isinstance(r, ast.Return) and r.value is not None:
+                            exprs.append((r.value, h))
+                            hrd = RD(h.node)
+                            exprs += [(d.value, h) for d in hrd.closure(hrd.uses(r.value)) if d.value is not None]
+    proj_uses = []
+    name_uses = []
+    edge_sets = set()
+    for e, owner in exprs:
+        for n in ast.walk(e):
+            if isinstance(n, ast.Attribute) and n.attr == "spin_projection":
+                proj_uses.append((n, owner))
+            if isinstance(n, ast.Attribute) and n.attr == "name" and unparse(n).endswith(".particle.name"):
+                name_uses.append(n)
+            if isinstance(n, ast.Attribute) and n.attr in {"incoming_edge_ids", "outgoing_edge_ids"}:
+                edge_sets.add(n.attr)
+    problems = []
+    if not proj_uses:
+        problems.append("the key does not contain the spin projections")
+    if not name_uses:
+        problems.append("the key does not contain the particle names")
+    if edge_sets != {"incoming_edge_ids", "outgoing_edge_ids"}:
+        problems.append(f"the key covers {sorted(edge_sets)} only (initial AND final states are required)")
+    for n, owner in proj_uses:
+        from ..loader import ancestors as _anc
+
+        for a in _anc(n):
+            if isinstance(a, (ast.FunctionDef, ast.Return, ast.Assign)):
+                break
+            if isinstance(a, ast.Call) and any(x is n or any(y is n for y in ast.walk(x)) for x in a.args):
+                name = a.func.id if isinstance(a.func, ast.Name) else a.func.attr if isinstance(a.func, ast.Attribute) else None
+                if name in LOSSY:
+                    problems.append(f"`{unparse(a)[:60]}` maps different spin projections to one key value (e.g. int(+1/2) == int(-1/2))")
+                elif name not in INJECTIVE and name is not None and not name[0].isupper():
+                    problems.append(f"spin projection passes through `{name}(...)`, which is not known to be injective")
+            if isinstance(a, ast.BinOp) and isinstance(a.op, (ast.FloorDiv, ast.Mod, ast.Mult)) and not isinstance(a.op, ast.Mult):
+                problems.append(f"`{unparse(a)[:50]}` is not injective in the spin projection")
+    ctx.verdict(not problems, "R-GROUPKEY", f"{fn.qual}::injective-key", tree.loc(fn.node),
+                "group_by_spin_projection: the group key separates transitions by (particle name, spin projection) of every initial and final state, without lossy conversion", problems or None)
+
+
 def run(ctx: Check, tree: Tree) -> None:
     ctx.decided += [
         "R-TERM: Wigner-D roles (J, m of the parent; l1 - l2 of children[0], children[1]; -phi, theta, 0) and both Clebsch-Gordan coefficients equal the formula in the property",
+        "R-GROUPKEY: group_by_spin_projection separates transitions by (particle name, spin projection) of every outer state without lossy conversion",
         "R-FOLD: over the fold chain top expression -> register -> topology amplitude -> sequential decay, every transition / combinatorics graph / node reaches its accumulator unconditionally and the accumulator is folded whole; coefficient x product x prefactor; |coherent sum|^2",
     ]
     ctx.not_decided += [
@@ -371,3 +439,4 @@ def run(ctx: Check, tree: Tree) -> None:
     ctx.section(check_cg, ctx, tree)
     ctx.section(check_fold, ctx, tree)
     ctx.section(check_products, ctx, tree)
+    ctx.section(check_group_key, ctx, tree)
